@@ -126,6 +126,16 @@ def check_prox(ctx, f, sp, sigma, x, comp, cfg, rng, tags, P=None):
                     break
         except Exception:
             pass
+        # documented convention 0 log 0 := 0: a point whose only non-positive entries are exact zeros at zeros of the prior lies
+        # *in* the domain of the Kullback-Leibler functional - not a rounding error next to it
+        try:
+            g0 = getattr(f, 'prior', None)
+            if near and 'kl' in tags and g0 is not None and not util.is_pspace(sp):
+                ga, pa = np.asarray(g0), np.asarray(p)
+                if np.all((pa > 0) | ((pa == 0) & (ga == 0))):
+                    near = False
+        except Exception:
+            pass
         if near:
             # p is feasible up to one rounding error of the constraint (e.g. x/||x|| has norm 1 + 1 ulp, or
             # P(x - g) + g - g != P(x - g)); exact feasibility is not attainable in floating point, so this is
